@@ -66,6 +66,8 @@ def classifyNumStr (s : String) : NumStr :=
   let rest := cs'.dropWhile Char.isDigit
   let mk (m : Nat) (k : Nat) : NumStr :=
     let q : Rat := (m : Rat) / (pow10 k : Rat)
+    -- the real parser reads the decimal into a 512-bit binary float: only dyadic values are read exactly
+    if stripFactor 2 q.den q.den ≠ 1 then .unsure else
     .num (if neg then -q else q)
   if ip ≠ [] ∧ rest = [] then mk (digitsToNat ip) 0
   else match rest with
